@@ -14,15 +14,22 @@ RULE = ("seeded generator: one session id driven through udpSessionManager.feed 
         "sequential sweeps repeated after eviction, denied/allowed alternation; hook off / rewrite-all / rewrite-some / rewrite-to-same / "
         "error; dial faults, socket replies and idle closes interleaved. The cache key evicted by Go's map iteration is recorded and fed "
         "to the model as the oracle. Non-trivial = the session evicted a cache entry, met a denied destination, or was hooked. "
-        "Distinct = distinct JSON case.")
+        "Distinct = distinct JSON case. Second stream (policy adapter, extras/outbounds): generated text rule sets over fake outbounds behind "
+        "PluggableOutboundAdapter, bare and (class 'resolve') behind a static-table resolver stage with destinations given as host names that "
+        "resolve v4 / v6 / both / to nothing / with a lookup error into, next to and at the edges of the CIDR and IP rules (plus IP literals), "
+        "CheckUDP/UDP called in 4 orders; the generator's own first-match evaluation is shipped with every address and the routing is compared "
+        "with model/C08_Adapter.v in Coq. Third stream: sessions through the real udpSessionManager.feed with that pipeline as the outbound, "
+        "first destination mostly allowed, later ones allowed / refused by name / refused by resolved address.")
 ASSUMPTIONS = [
     "the outbound policy is a function of the destination string (CheckUDP(a)==nil iff UDP(a) would be allowed): Section variable P",
     "UDP(a) succeeds only for destinations the policy allows (the dial vets the first destination)",
     "a client datagram never carries the empty destination string (wf_input; ParseUDPMessage rejects a zero-length address)",
 ]
 TRUSTED = ["modelled rather than verified: udpSessionEntry.Feed/checkAddr/initConn and the reply address stamp of core/server/udp.go "
-           "(hand transcription in coq/model/C08_UDPPolicy.v); the extras/outbounds ACL engine + PluggableOutboundAdapter are not modelled: "
-           "a second harness stream checks on generated rule sets that CheckUDP(addr)==nil iff UDP(addr) succeeds with identical routing"]
+           "(hand transcription in coq/model/C08_UDPPolicy.v); the UDP entry points of PluggableOutboundAdapter / resolver stage / aclEngine "
+           "(coq/model/C08_Adapter.v on top of the C09 engine model); the resolver stage is a static-table stand-in with the shape of "
+           "systemResolver/standardResolver; the harness checks on generated rule sets that CheckUDP(addr)==nil iff UDP(addr) succeeds with "
+           "identical routing (outbound, rewritten address, resolve info) and that both equal the generator's first-match evaluation"]
 PER_SHARD = 25
 EXTRA_TARGETS = ["corr/C08_Corr.vo", "corr/C08_Adapter_Corr.vo"]
 POOL = 401
@@ -627,7 +634,9 @@ LEVEL_TEXT = ("Machine-checked Coq theorems over a statement-by-statement Gallin
               "the original one. Tied to /repo on every run by the regenerated cap and a differential replay of ~200 recorded sessions "
               "(with Go's actual eviction choices) against the model in the kernel.")
 LEVEL_NOTE = ("Trusted: Coq kernel + vm_compute; hand-written model (tie is sampled differential testing + regenerated Params); python/Go glue. "
-              "No axioms. Not proved: policies that are not functions of the destination string; that a real outbound's UDP() refuses what "
-              "its CheckUDP() refuses (read for the ACL engine: both go through aclEngine.handle(ProtocolUDP)).")
+              "No axioms. Not proved: policies that are not functions of the destination string (a real resolver may answer differently from one "
+              "lookup to the next); that a terminal outbound's UDP() refuses what its CheckUDP() refuses. For the ACL pipeline "
+              "C08_adapter_check_walks_same_acl / C08_adapter_same_policy state that CheckUDP and UDP evaluate the same handle on the same AddrEx "
+              "(resolve info included), tied to the code by the adapter correspondence stream.")
 TECHNIQUE = "Coq proof (invariant over session histories, all eviction oracles) on a hand-written model + differential correspondence check in vm_compute"
 DESIGN_REF = "DESIGN.md section 4 C08"
